@@ -2,13 +2,13 @@
 //! sophia_c14n crate, and an INDEPENDENT transcription of W3C RDFC-1.0 (sections 4.4-4.8 and the
 //! canonical N-Quads form) used as property oracle.
 #![allow(dead_code)]
-use sophia_api::dataset::{MutableDataset, SetDataset};
+use sophia_api::dataset::{DResult, MutableDataset, SetDataset};
 use sophia_api::prelude::*;
-use sophia_api::quad::Spog;
+use sophia_api::quad::{Gspo, Spog};
 use sophia_api::term::{SimpleTerm, TermKind};
 use sophia_c14n::C14nError;
 use sophia_c14n::hash::{HashFunction, Sha256, Sha384};
-use sophia_c14n::rdfc10::{normalize_with, relabel_with};
+use sophia_c14n::rdfc10::{normalize, normalize_sha384, normalize_with, relabel, relabel_sha384, relabel_with};
 use sophia_inmem::dataset::{FastDataset, LightDataset};
 use std::cell::RefCell;
 use std::collections::{BTreeMap, BTreeSet, HashSet};
@@ -20,6 +20,11 @@ pub type Q = Spog<ST>;
 thread_local! {
     /// every (concatenated input, digest) pair seen since the last `take_table`
     static TABLE: RefCell<BTreeMap<Vec<u8>, Vec<u8>>> = RefCell::new(BTreeMap::new());
+    /// number of digests computed by the recording hash function (a deterministic measure of the work of a run)
+    static DIGESTS: std::cell::Cell<u64> = std::cell::Cell::new(0);
+}
+pub fn digests() -> u64 {
+    DIGESTS.with(|c| c.get())
 }
 pub struct Rec<I: HashFunction> {
     inner: I,
@@ -36,6 +41,7 @@ impl<I: HashFunction> HashFunction for Rec<I> {
     }
     fn finalize(self) -> Self::Output {
         let out = self.inner.finalize();
+        DIGESTS.with(|c| c.set(c.get() + 1));
         TABLE.with(|t| t.borrow_mut().insert(self.buf, out.as_ref().to_vec()));
         out
     }
@@ -189,7 +195,32 @@ fn ground(r: &mut Rng) -> ST {
         _ => gen_literal(r),
     }
 }
-pub const SHAPES: [&str; 15] = ["cycle", "clique", "components", "star", "bipartite", "blank-graph", "twice-in-quad", "three-blank-quad", "row28-witness", "literals", "random", "unsupported", "path-tree", "b9-b10", "b9-b10-witness"];
+pub const SHAPES: [&str; 17] = ["cycle", "clique", "components", "star", "bipartite", "blank-graph", "twice-in-quad", "three-blank-quad", "row28-witness", "literals", "random", "unsupported", "path-tree", "b9-b10", "b9-b10-witness", "twins", "multi-edge"];
+/// the shapes added after the first seeding rounds (near-identical quads; parallel edges)
+pub const NEW_SHAPES: [usize; 2] = [15, 16];
+const G1: &str = "http://e/g";
+const G2: &str = "http://e/g2";
+/// terms that are easily confused with each other at one position of a quad: equal lexical forms under different
+/// datatypes / language tags, lexical forms and IRIs that are prefixes of each other, datatypes around xsd:string,
+/// graph name present / absent / blank
+fn twin_family(r: &mut Rng, pos: usize) -> Vec<Option<ST>> {
+    let some = |v: Vec<ST>| v.into_iter().map(Some).collect::<Vec<_>>();
+    let iris = |v: &[&str]| v.iter().map(|i| iri(i)).collect::<Vec<ST>>();
+    match pos {
+        0 => { let mut v = iris(&["http://e/a", "http://e/a9", "http://e/a/", "http://e/a#", "http://e/A", "http://e/a%20", "http://e/b"]); v.extend([b(0), b(1), b(2)]); some(v) }
+        1 => some(iris(&[P, PQ, "http://e/p2", "http://e/p/", "http://e/P", "http://e/"])),
+        2 => {
+            let lf = r.ps(&["1", "", "a", "1.0", "x\"y", "\u{e9}", "01", "a\nb"]);
+            let x = |n: &str| format!("{XSD}{n}");
+            let mut v = vec![lit_dt(lf, &x("string")), lit_dt(lf, &x("integer")), lit_dt(lf, &x("decimal")), lit_dt(lf, &x("double")), lit_dt(lf, "http://e/dt"), lit_dt(lf, "tag:dt"),
+                lit_dt(lf, &x("strin")), lit_dt(lf, &x("string2")), lit_dt(lf, &x("String")), lit_lang(lf, "en"), lit_lang(lf, "en-US"), lit_lang(lf, "fr"),
+                lit_dt(&format!("{lf} "), &x("string")), lit_dt(&format!("{lf}0"), &x("integer")), lit_dt(&format!("{lf}\u{0}"), &x("integer"))];
+            if r.chance(1, 2) { v.extend([iri("http://e/a"), iri("http://e/a9"), b(1), b(2)]); }
+            some(v)
+        }
+        _ => { let mut v = some(iris(&[G1, G2, "http://e/a", "http://e/g/", "http://e/G"])); v.extend([None, None, Some(b(0)), Some(b(2)), Some(bnode("g"))]); v }
+    }
+}
 /// a dataset of one of the shapes; at most 6 blank nodes
 pub fn gen_dataset(r: &mut Rng, shape: usize, big: bool) -> Vec<Q> {
     let mut v: Vec<Q> = vec![];
@@ -345,6 +376,68 @@ pub fn gen_dataset(r: &mut Rng, shape: usize, big: bool) -> Vec<Q> {
             let k = r.below(v.len() + 1);
             v.insert(k, bad);
         }
+        "twins" => {
+            // quads that agree on all components but one or two, where they carry near-identical terms: the final
+            // sort of normalize_with has to tell them apart whatever the order in which the dataset yields them
+            let fam: Vec<Vec<Option<ST>>> = (0..4).map(|pos| twin_family(r, pos)).collect();
+            let base: Vec<Option<ST>> = (0..4).map(|pos| r.pick(&fam[pos]).clone()).collect();
+            let varied: Vec<usize> = match r.below(10) {
+                0..=2 => vec![2],
+                3..=5 => vec![r.below(4)],
+                6..=8 => { let a = r.below(4); let bb = r.below(4); if a == bb { vec![a] } else { vec![a, bb] } }
+                _ => vec![0, 1, 2, 3],
+            };
+            for _ in 0..r.range(2, 5) {
+                let mut c = base.clone();
+                for &pos in &varied { c[pos] = r.pick(&fam[pos]).clone(); }
+                v.push(([c[0].clone().unwrap(), c[1].clone().unwrap(), c[2].clone().unwrap()], c[3].clone()));
+            }
+            for _ in 0..r.below(3) {
+                v.push(([r.pick(&fam[0]).clone().unwrap(), iri(r.ps(&[P, PQ])), if r.chance(1, 2) { b(r.below(3)) } else { ground(r) }], None));
+            }
+        }
+        "multi-edge" => {
+            // parallel edges: a root n related to each of its k children through mult quads that differ only by
+            // their graph name (child as object / as subject) or only by their object (child as graph name), so that
+            // the related-node list permuted by Hash N-Degree Quads is a multiset (x, y, y, x ...), in the order in
+            // which the dataset yields the quads.  The children share their first-degree hash and differ one step
+            // further (or not at all); the structure is repeated so that the root itself goes through Hash N-Degree
+            // Quads.  The link quads of each root are shuffled among themselves.
+            let six = big || r.chance(1, 12); // six related nodes = the default permutation limit: 720 arrangements
+            let (k, mult) = *r.pick(&[(2usize, 2usize), (2, 2), (2, 2), (2, 2), (1, 2), (1, 3), (3, 1), (2, 1), if six { (3, 2) } else { (2, 2) }, if six { (2, 3) } else { (1, 2) }]);
+            let lk = r.below(3);
+            let copies = if r.chance(1, 6) { 1 } else { 2 };
+            let distinct_copies = r.chance(2, 3);
+            let tails = r.below(4); // 0: children indistinguishable, 1 and 2: told apart one step further, 3: two steps further
+            let pl = r.ps(&[P, PQ, "http://e/p0"]);
+            let extra = r.chance(1, 3);
+            let graphs = [None, Some(iri(G1)), Some(iri(G2))];
+            for c in 0..copies {
+                let nd = |kind: &str, i: usize| bnode(&format!("c{c}{kind}{i}"));
+                let n = bnode(&format!("c{c}n"));
+                let mut links: Vec<Q> = vec![];
+                for i in 0..k {
+                    let x = nd("x", i);
+                    for j in 0..mult {
+                        links.push(match lk {
+                            0 => ([n.clone(), iri(pl), x.clone()], graphs[j].clone()),
+                            1 => ([x.clone(), iri(pl), n.clone()], graphs[j].clone()),
+                            _ => ([n.clone(), iri(pl), lit_dt(&j.to_string(), &format!("{XSD}integer"))], Some(x.clone())),
+                        });
+                    }
+                    let mark = lit_dt(&format!("{}", if distinct_copies { c * k + i } else { i }), &format!("{XSD}string"));
+                    match tails {
+                        0 => {}
+                        1 | 2 => { v.push(e(x.clone(), "http://e/r", nd("u", i))); v.push(e(nd("u", i), PQ, mark)); }
+                        _ => { v.push(e(x.clone(), "http://e/r", nd("u", i))); v.push(e(nd("u", i), "http://e/r", nd("w", i))); v.push(e(nd("w", i), PQ, mark)); }
+                    }
+                }
+                if extra { links.push(e(n.clone(), "http://e/s", nd("z", 0))); }
+                shuffle(&mut links, r);
+                let at = r.below(v.len() + 1);
+                for (j, q) in links.into_iter().enumerate() { v.insert(at + j, q); }
+            }
+        }
         "b9-b10" | "b9-b10-witness" => {
             // ten or more temporary identifiers, and a related-node list in which one node occurs twice:
             // permutations then give paths of different lengths (_:b9 vs _:b10).  A chain a0..a(L-1) ends in
@@ -407,13 +500,26 @@ pub fn gen_dataset(r: &mut Rng, shape: usize, big: bool) -> Vec<Q> {
 #[derive(Clone, Debug)]
 pub struct Outcome {
     /// 0 = Ok, 1 = unsupported: blank predicate, 2 = unsupported: variable / quoted triple,
-    /// 3 = toxic: too many recursions, 4 = toxic: too many permutations, 5 = panic, 9 = other
+    /// 3 = toxic: too many recursions, 4 = toxic: too many permutations, 5 = panic,
+    /// 6 = error of the dataset, 7 = error of the writer, 9 = other
     pub code: u64,
     pub bytes: String,
     pub idmap: Vec<(String, String)>,
     /// relabelled quads, in the order returned by relabel_with
     pub quads: Vec<Q>,
     pub msg: String,
+    /// what the other entry points (normalize / normalize_sha384 / relabel / relabel_sha384) returned, when they
+    /// were run (default limits only): same fields
+    pub dflt: Option<Box<Outcome>>,
+    /// writer with a byte budget: (budget, outcome code 0 or 7, what was written)
+    pub budget: Option<(usize, u64, Vec<u8>)>,
+    /// property violations noticed while driving the crate (entry points, writers, term views)
+    pub extra: Vec<String>,
+}
+impl Outcome {
+    fn new(code: u64, bytes: String, idmap: Vec<(String, String)>, quads: Vec<Q>, msg: String) -> Self {
+        Outcome { code, bytes, idmap, quads, msg, dflt: None, budget: None, extra: vec![] }
+    }
 }
 fn quiet_catch<R>(f: impl FnOnce() -> R) -> Result<R, String> {
     let prev = std::panic::take_hook();
@@ -428,40 +534,245 @@ fn classify<E: std::error::Error + Send + Sync + 'static>(e: &C14nError<E>) -> (
         C14nError::Unsupported(m) => (2, m.clone()),
         C14nError::ToxicGraph(m) if m.contains("too many recursions") => (3, m.clone()),
         C14nError::ToxicGraph(m) if m.contains("Too many permutations") => (4, m.clone()),
+        C14nError::Dataset(d) => (6, format!("{d}")),
+        C14nError::Io(i) => (7, format!("{i}")),
         other => (9, format!("{other}")),
     }
 }
-fn run_on<H: HashFunction, D: SetDataset>(d: &D, df: f32, pl: usize) -> (Vec<Q>, Outcome) {
-    let order: Vec<Q> = d.quads().map(|q| { let q = q.unwrap(); ([to_st(q.s()), to_st(q.p()), to_st(q.o())], q.g().map(to_st)) }).collect();
+
+// ---- datasets of the harness's own
+/// a set dataset that yields its quads exactly in insertion order
+pub struct OrderedVec(pub Vec<Q>);
+impl Dataset for OrderedVec {
+    type Quad<'x> = Spog<&'x ST>;
+    type Error = std::convert::Infallible;
+    fn quads(&self) -> impl Iterator<Item = DResult<Self, Self::Quad<'_>>> + '_ {
+        self.0.iter().map(|q| Ok((q.0.each_ref(), q.1.as_ref())))
+    }
+}
+impl SetDataset for OrderedVec {}
+#[derive(Debug)]
+pub struct SrcErr(pub usize);
+impl std::fmt::Display for SrcErr {
+    fn fmt(&self, f: &mut std::fmt::Formatter<'_>) -> std::fmt::Result { write!(f, "source failed at item {}", self.0) }
+}
+impl std::error::Error for SrcErr {}
+/// a set dataset whose iterator fails instead of yielding item number `fail_at` (and goes on afterwards)
+pub struct Failing { pub quads: Vec<Q>, pub fail_at: usize }
+impl Dataset for Failing {
+    type Quad<'x> = Spog<&'x ST>;
+    type Error = SrcErr;
+    fn quads(&self) -> impl Iterator<Item = DResult<Self, Self::Quad<'_>>> + '_ {
+        let k = self.fail_at;
+        self.quads.iter().enumerate().map(move |(i, q)| if i == k { Err(SrcErr(i)) } else { Ok((q.0.each_ref(), q.1.as_ref())) })
+    }
+}
+impl SetDataset for Failing {}
+
+// ---- writers
+/// accepts at most `max` bytes per call, and answers Interrupted now and then (write_all must retry)
+struct ChunkWriter { out: Vec<u8>, max: usize, calls: usize }
+impl std::io::Write for ChunkWriter {
+    fn write(&mut self, buf: &[u8]) -> std::io::Result<usize> {
+        self.calls += 1;
+        if self.calls % 5 == 3 { return Err(std::io::Error::new(std::io::ErrorKind::Interrupted, "try again")); }
+        let n = buf.len().min(self.max);
+        self.out.extend_from_slice(&buf[..n]);
+        Ok(n)
+    }
+    fn flush(&mut self) -> std::io::Result<()> { Ok(()) }
+}
+/// accepts `budget` bytes in all (short writes when the budget runs out), then fails
+struct BudgetWriter { out: Vec<u8>, budget: usize }
+impl std::io::Write for BudgetWriter {
+    fn write(&mut self, buf: &[u8]) -> std::io::Result<usize> {
+        let left = self.budget - self.out.len();
+        if left == 0 && !buf.is_empty() { return Err(std::io::Error::new(std::io::ErrorKind::Other, "disk full")); }
+        let n = buf.len().min(left);
+        self.out.extend_from_slice(&buf[..n]);
+        Ok(n)
+    }
+    fn flush(&mut self) -> std::io::Result<()> { Ok(()) }
+}
+
+fn std_hash<T: Term>(t: T) -> u64 {
+    use std::hash::Hasher;
+    let mut h = std::collections::hash_map::DefaultHasher::new();
+    Term::hash(&t, &mut h);
+    h.finish()
+}
+/// every accessor of the Term view of a returned term must describe one and the same term (the returned quads are
+/// `C14nTerm`s: canonical blank nodes, or the dataset's own terms)
+fn view_fail<T: Term>(t: &T) -> Option<String> {
+    let k = t.kind();
+    let st = to_st(t.borrow_term());
+    let shape = (t.iri().is_some(), t.bnode_id().is_some(), t.lexical_form().is_some(), t.datatype().is_some(), t.language_tag().is_some(), t.variable().is_some());
+    let want = match k {
+        TermKind::Iri => (true, false, false, false, false, false),
+        TermKind::BlankNode => (false, true, false, false, false, false),
+        TermKind::Literal => (false, false, true, true, matches!(st, SimpleTerm::LiteralLanguage(..)), false),
+        TermKind::Variable => (false, false, false, false, false, true),
+        TermKind::Triple => (false, false, false, false, false, false),
+    };
+    if shape != want { return Some(format!("term view of {}: kind {k:?} but (iri, bnode_id, lexical_form, datatype, language_tag, variable) are Some: {shape:?}", show_t(&st))); }
+    if (t.is_iri(), t.is_blank_node(), t.is_literal(), t.is_variable(), t.is_triple()) != (k == TermKind::Iri, k == TermKind::BlankNode, k == TermKind::Literal, k == TermKind::Variable, k == TermKind::Triple) {
+        return Some(format!("term view of {}: is_*() disagree with kind {k:?}", show_t(&st)));
+    }
+    if !Term::eq(t, &st) || !Term::eq(&st, t.borrow_term()) || Term::cmp(t, &st) != std::cmp::Ordering::Equal || std_hash(t.borrow_term()) != std_hash(&st) || !Term::eq(&t.borrow_term(), &st) {
+        return Some(format!("term view of {}: eq / cmp / hash disagree with the term its accessors describe", show_t(&st)));
+    }
+    None
+}
+fn conv_relabelled<T: Term>(qs: &[Spog<T>], map: &sophia_c14n::rdfc10::C14nIdMap, extra: &mut Vec<String>) -> (Vec<Q>, Vec<(String, String)>) {
+    for q in qs {
+        for t in q.0.iter().chain(q.1.iter()) {
+            if let Some(f) = view_fail(t) { if extra.len() < 3 { extra.push(f); } }
+        }
+    }
+    let out: Vec<Q> = qs.iter().map(|q| ([to_st(q.0[0].borrow_term()), to_st(q.0[1].borrow_term()), to_st(q.0[2].borrow_term())], q.1.as_ref().map(|g| to_st(g.borrow_term())))).collect();
+    let map: Vec<(String, String)> = map.iter().map(|(k, v)| (k.to_string(), v.as_str().to_string())).collect();
+    (out, map)
+}
+fn merge(r1: Result<Vec<u8>, (u64, String)>, r2: Result<(Vec<Q>, Vec<(String, String)>), (u64, String)>, what: &str) -> Outcome {
+    match (r1, r2) {
+        (Ok(out), Ok((qs, map))) => match String::from_utf8(out) {
+            Ok(b) => Outcome::new(0, b, map, qs, String::new()),
+            Err(e) => Outcome::new(9, String::new(), vec![], vec![], format!("{what}: the output is not UTF-8 ({e})")),
+        },
+        (Err((c1, m1)), Err((c2, _))) if c1 == c2 => Outcome::new(c1, String::new(), vec![], vec![], m1),
+        (r1, r2) => Outcome::new(9, String::new(), vec![], vec![], format!("{what} disagree: {:?} vs {:?}", r1.err(), r2.map(|_| ()).err())),
+    }
+}
+pub fn dataset_order<D: Dataset>(d: &D) -> Vec<Q> {
+    d.quads().filter_map(|q| q.ok()).map(|q| ([to_st(q.s()), to_st(q.p()), to_st(q.o())], q.g().map(to_st))).collect()
+}
+/// `probes`: also drive the other entry points, writers of other kinds and the term views of the result
+fn run_on<H: HashFunction, D: SetDataset>(d: &D, df: f32, pl: usize, sha384: bool, probes: bool) -> (Vec<Q>, Outcome) {
+    let order: Vec<Q> = dataset_order(d);
+    let mut extra: Vec<String> = vec![];
     let res = quiet_catch(|| {
         let mut out = Vec::<u8>::new();
-        let r1 = normalize_with::<H, D, _>(d, &mut out, df, pl).map_err(|e| classify(&e));
-        let r2 = relabel_with::<H, D>(d, df, pl).map_err(|e| classify(&e)).map(|(qs, map)| {
-            let qs: Vec<Q> = qs.iter().map(|q| ([to_st(&q.0[0]), to_st(&q.0[1]), to_st(&q.0[2])], q.1.as_ref().map(to_st))).collect();
-            let map: Vec<(String, String)> = map.iter().map(|(k, v)| (k.to_string(), v.as_str().to_string())).collect();
-            (qs, map)
-        });
-        (out, r1, r2)
+        let r1 = normalize_with::<H, D, _>(d, &mut out, df, pl).map_err(|e| classify(&e)).map(|()| out);
+        let r2 = relabel_with::<H, D>(d, df, pl).map_err(|e| classify(&e)).map(|(qs, map)| conv_relabelled(&qs, &map, &mut extra));
+        merge(r1, r2, "normalize_with and relabel_with")
     });
-    let o = match res {
-        Err(p) => Outcome { code: 5, bytes: String::new(), idmap: vec![], quads: vec![], msg: format!("panic: {p}") },
-        Ok((out, Ok(()), Ok((qs, map)))) => Outcome { code: 0, bytes: String::from_utf8(out).expect("utf8 output"), idmap: map, quads: qs, msg: String::new() },
-        Ok((_, Err((c1, m1)), Err((c2, _)))) if c1 == c2 => Outcome { code: c1, bytes: String::new(), idmap: vec![], quads: vec![], msg: m1 },
-        Ok((_, r1, r2)) => Outcome { code: 9, bytes: String::new(), idmap: vec![], quads: vec![], msg: format!("normalize_with and relabel_with disagree: {:?} vs {:?}", r1.err(), r2.map(|_| ()).err()) },
+    let mut o = match res {
+        Err(p) => Outcome::new(5, String::new(), vec![], vec![], format!("panic: {p}")),
+        Ok(o) => o,
     };
+    if probes && o.code != 5 {
+        // the entry points with the default limits and the fixed hash functions
+        if df == 1.0 && pl == 6 {
+            let res = quiet_catch(|| {
+                let mut out = Vec::<u8>::new();
+                let r1 = if sha384 { normalize_sha384(d, &mut out) } else { normalize(d, &mut out) }.map_err(|e| classify(&e)).map(|()| out);
+                let r2 = if sha384 { relabel_sha384(d) } else { relabel(d) }.map_err(|e| classify(&e)).map(|(qs, map)| conv_relabelled(&qs, &map, &mut extra));
+                merge(r1, r2, if sha384 { "normalize_sha384 and relabel_sha384" } else { "normalize and relabel" })
+            });
+            let dflt = match res {
+                Err(p) => Outcome::new(5, String::new(), vec![], vec![], format!("panic: {p}")),
+                Ok(x) => x,
+            };
+            let names = if sha384 { "normalize_sha384 / relabel_sha384" } else { "normalize / relabel" };
+            if dflt.code != o.code || dflt.bytes != o.bytes || dflt.idmap != o.idmap || dflt.quads.iter().map(show_q).ne(o.quads.iter().map(show_q)) {
+                extra.push(format!("{names} and normalize_with / relabel_with (same hash function, default limits 1.0 and 6) disagree on {}: code {} {} bytes {:?} map {:?} vs code {} {} bytes {:?} map {:?}", show_d(&order), dflt.code, dflt.msg, dflt.bytes, dflt.idmap, o.code, o.msg, o.bytes, o.idmap));
+            }
+            o.dflt = Some(Box::new(dflt));
+        }
+        if o.code == 0 {
+            // a writer taking a few bytes at a time gets the same document
+            let max = 1 + order.len() % 3;
+            let mut cw = ChunkWriter { out: vec![], max, calls: 0 };
+            let r = quiet_catch(|| normalize_with::<H, D, _>(d, &mut cw, df, pl).map_err(|e| classify(&e)));
+            if !matches!(r, Ok(Ok(()))) || cw.out != o.bytes.as_bytes() {
+                extra.push(format!("a writer accepting {max} byte(s) per call got {:?} ({:?}) instead of {:?} for {}", String::from_utf8_lossy(&cw.out), r, o.bytes, show_d(&order)));
+            }
+            // a writer that fails after `budget` bytes: an explicit error, and exactly the first `budget` bytes written
+            let len = o.bytes.len();
+            let budget = match order.len() % 4 { 0 => 0, 1 => len / 2, 2 => len.saturating_sub(1), _ => len };
+            let mut bw = BudgetWriter { out: vec![], budget };
+            let r = quiet_catch(|| normalize_with::<H, D, _>(d, &mut bw, df, pl).map_err(|e| classify(&e)));
+            let code = match &r { Ok(Ok(())) => 0, Ok(Err((c, _))) => *c, Err(_) => 5 };
+            if code != (if budget < len { 7 } else { 0 }) || bw.out != o.bytes.as_bytes()[..budget.min(len)] {
+                extra.push(format!("a writer failing after {budget} byte(s) of the {len}-byte document: outcome {r:?}, written {:?}, for {}", String::from_utf8_lossy(&bw.out), show_d(&order)));
+            }
+            o.budget = Some((budget, code, bw.out));
+        }
+    }
+    o.extra.extend(extra);
     (order, o)
 }
-pub const STORES: [&str; 4] = ["HashSet", "BTreeSet", "FastDataset", "LightDataset"];
+pub const STORES: [&str; 9] = ["HashSet", "BTreeSet", "FastDataset", "LightDataset", "OrderedVec", "BTreeSet<Gspo>", "HashSet<Gspo>", "FastDataset+history", "LightDataset+history"];
+pub const ORDERED: usize = 4;
+/// quads that are inserted before the dataset's own quads and removed afterwards: they leave their mark in the
+/// term index of the in-memory stores (other term identifiers, hence another enumeration order)
+fn decoys(quads: &[Q]) -> Vec<Q> {
+    let mut v: Vec<Q> = vec![([iri("http://e/zz"), iri(PQ), bnode("zz0")], Some(iri("http://e/zg")))];
+    for q in quads.iter().rev() {
+        if !q.0[2].is_literal() && !q.0[0].is_triple() && !q.0[2].is_triple() { v.push(([q.0[2].clone(), q.0[1].clone(), q.0[0].clone()], q.1.clone())); }
+        v.push(([q.0[0].clone(), iri("http://e/decoy"), q.0[2].clone()], None));
+    }
+    v.retain(|x| !quads.iter().any(|q| show_q(q) == show_q(x)));
+    v
+}
 /// canonicalise `quads` held in the store `store` with hash `sha384?`; returns the order in which
 /// the store enumerates its quads (what the algorithm sees) and the outcome
 pub fn run_impl(quads: &[Q], store: usize, sha384: bool, df: f32, pl: usize) -> (Vec<Q>, Outcome) {
+    run_impl_p(quads, store, sha384, df, pl, true)
+}
+pub fn run_impl_p(quads: &[Q], store: usize, sha384: bool, df: f32, pl: usize, probes: bool) -> (Vec<Q>, Outcome) {
     macro_rules! mk { ($ty:ty) => {{ let mut d = <$ty>::default(); for q in quads { MutableDataset::insert_quad(&mut d, q.clone()).unwrap(); } d }}; }
-    macro_rules! go { ($d:expr) => { if sha384 { run_on::<Rec<Sha384>, _>(&$d, df, pl) } else { run_on::<Rec<Sha256>, _>(&$d, df, pl) } }; }
+    macro_rules! mkg { ($ty:ty) => {{ let mut d = <$ty>::default(); for q in quads { MutableDataset::insert(&mut d, &q.0[0], &q.0[1], &q.0[2], q.1.as_ref()).unwrap(); } d }}; }
+    macro_rules! mkh { ($ty:ty) => {{
+        let mut d = <$ty>::default();
+        let dec = decoys(quads);
+        for q in &dec { MutableDataset::insert_quad(&mut d, q.clone()).unwrap(); }
+        for q in quads { MutableDataset::insert_quad(&mut d, q.clone()).unwrap(); }
+        for q in &dec { MutableDataset::remove_quad(&mut d, q.clone()).unwrap(); }
+        d
+    }}; }
+    macro_rules! go { ($d:expr) => { if sha384 { run_on::<Rec<Sha384>, _>(&$d, df, pl, sha384, probes) } else { run_on::<Rec<Sha256>, _>(&$d, df, pl, sha384, probes) } }; }
     match store {
         0 => go!(mk!(HashSet<Q>)),
         1 => go!(mk!(BTreeSet<Q>)),
         2 => go!(mk!(FastDataset)),
-        _ => go!(mk!(LightDataset)),
+        3 => go!(mk!(LightDataset)),
+        4 => go!(OrderedVec(quads.to_vec())),
+        5 => go!(mkg!(BTreeSet<Gspo<ST>>)),
+        6 => go!(mkg!(HashSet<Gspo<ST>>)),
+        7 => go!(mkh!(FastDataset)),
+        _ => go!(mkh!(LightDataset)),
+    }
+}
+/// the dataset fails while it is enumerated: an explicit error, nothing written
+pub fn run_failing(quads: &[Q], fail_at: usize, sha384: bool) -> Outcome {
+    let d = Failing { quads: quads.to_vec(), fail_at };
+    let res = quiet_catch(|| {
+        let mut out = Vec::<u8>::new();
+        let r1 = if sha384 { normalize_with::<Rec<Sha384>, _, _>(&d, &mut out, 1.0, 6) } else { normalize_with::<Rec<Sha256>, _, _>(&d, &mut out, 1.0, 6) }.map_err(|e| classify(&e));
+        let written = out.len();
+        let mut extra = vec![];
+        let r2 = if sha384 { relabel_with::<Rec<Sha384>, _>(&d, 1.0, 6) } else { relabel_with::<Rec<Sha256>, _>(&d, 1.0, 6) }.map_err(|e| classify(&e)).map(|(qs, map)| conv_relabelled(&qs, &map, &mut extra));
+        let mut o = merge(r1.map(|()| out), r2, "normalize_with and relabel_with");
+        if o.code != 0 && written > 0 { o.extra.push(format!("{written} byte(s) written although the dataset failed")); }
+        o
+    });
+    match res {
+        Err(p) => Outcome::new(5, String::new(), vec![], vec![], format!("panic: {p}")),
+        Ok(o) => o,
+    }
+}
+/// the document only, through the entry point with fixed hash function and default limits (nothing is recorded)
+pub fn quick_bytes(order: &[Q], sha384: bool) -> Result<String, String> {
+    let d = OrderedVec(order.to_vec());
+    let r = quiet_catch(|| {
+        let mut out = Vec::<u8>::new();
+        if sha384 { normalize_sha384(&d, &mut out) } else { normalize(&d, &mut out) }.map_err(|e| format!("{e}")).map(|()| out)
+    });
+    match r {
+        Err(p) => Err(format!("panic: {p}")),
+        Ok(Err(e)) => Err(e),
+        Ok(Ok(out)) => String::from_utf8(out).map_err(|e| e.to_string()),
     }
 }
 
@@ -499,6 +810,8 @@ pub struct SpecOut {
     pub max_list: usize,
     /// pairs of blank nodes whose hash-n-degree results were equal in step 5.3
     pub ties: Vec<(String, String)>,
+    /// number of permutations visited by all the runs of hash-n-degree (a deterministic measure of the work)
+    pub perms: u64,
 }
 fn spec_escape(s: &str) -> String {
     let mut o = String::new();
@@ -546,6 +859,7 @@ struct Spec<'a> {
     hash: &'a dyn Fn(&str) -> String,
     max_depth: usize,
     max_list: usize,
+    perms: u64,
 }
 fn lex_perms(n: usize) -> Vec<Vec<usize>> {
     fn go(n: usize, cur: &mut Vec<usize>, out: &mut Vec<Vec<usize>>) {
@@ -635,6 +949,7 @@ impl Spec<'_> {
             let mut chosen_issuer: Option<SIssuer> = None;
             self.max_list = self.max_list.max(blank_node_list.len());
             'perm: for perm in heap_order_perms(blank_node_list.len()) {
+                self.perms += 1;
                 let p: Vec<&String> = perm.iter().map(|&i| &blank_node_list[i]).collect();
                 let mut issuer_copy = issuer.clone();
                 let mut path = String::new();
@@ -686,7 +1001,7 @@ pub fn spec_rdfc10(quads: &[Q], hash: &dyn Fn(&str) -> String) -> Result<SpecOut
             return Err("quoted triple or variable".into());
         }
     }
-    let mut sp = Spec { quads, b2q: BTreeMap::new(), canonical: SIssuer::new("c14n"), hash, max_depth: 0, max_list: 0 };
+    let mut sp = Spec { quads, b2q: BTreeMap::new(), canonical: SIssuer::new("c14n"), hash, max_depth: 0, max_list: 0, perms: 0 };
     // step 2: one reference per blank node of the quad
     for (i, q) in quads.iter().enumerate() {
         let bs: BTreeSet<String> = q_blanks(q).into_iter().collect();
@@ -737,7 +1052,7 @@ pub fn spec_rdfc10(quads: &[Q], hash: &dyn Fn(&str) -> String) -> Result<SpecOut
     let canon = sp.canonical.map.clone();
     let mut lines: Vec<String> = quads.iter().map(|q| spec_line(q, &|l| format!("_:{}", canon[l]))).collect();
     lines.sort();
-    Ok(SpecOut { bytes: lines.concat(), idmap: canon, max_depth: sp.max_depth, max_list: sp.max_list, ties })
+    Ok(SpecOut { bytes: lines.concat(), idmap: canon, max_depth: sp.max_depth, max_list: sp.max_list, ties, perms: sp.perms })
 }
 pub fn hash_with<H: HashFunction>(s: &str) -> String {
     let mut h = H::initialize();
@@ -752,6 +1067,7 @@ pub fn spec_run(quads: &[Q], sha384: bool) -> Result<SpecOut, String> {
 /// set of quads onto itself) sending x to y?  brute force; datasets have at most 6 blank nodes
 pub fn automorphic(d: &[Q], x: &str, y: &str) -> bool {
     let labels: Vec<String> = d_blanks(d).into_iter().collect();
+    if labels.len() > 6 { return automorphic_bt(d, x, y); }
     let set: HashSet<String> = d.iter().map(show_q).collect();
     let xi = labels.iter().position(|l| l == x).unwrap();
     let yi = labels.iter().position(|l| l == y).unwrap();
@@ -765,6 +1081,67 @@ pub fn automorphic(d: &[Q], x: &str, y: &str) -> bool {
         }
     }
     false
+}
+
+/// the same question for datasets with more blank nodes: backtracking over partial label maps, a quad being
+/// checked as soon as all its blank nodes are mapped
+pub fn automorphic_bt(d: &[Q], x: &str, y: &str) -> bool {
+    let labels: Vec<String> = d_blanks(d).into_iter().collect();
+    let set: HashSet<String> = d.iter().map(show_q).collect();
+    let idx = |l: &str| labels.iter().position(|k| k == l).unwrap();
+    let qb: Vec<Vec<usize>> = d.iter().map(|q| q_blanks(q).iter().map(|l| idx(l)).collect()).collect();
+    let deg: Vec<usize> = (0..labels.len()).map(|i| qb.iter().filter(|b| b.contains(&i)).count()).collect();
+    fn go(k: usize, order: &[usize], map: &mut Vec<Option<usize>>, used: &mut Vec<bool>, d: &[Q], qb: &[Vec<usize>], deg: &[usize], labels: &[String], set: &HashSet<String>) -> bool {
+        // every quad whose blank nodes are all mapped must be mapped into the dataset
+        for (q, bl) in d.iter().zip(qb) {
+            if bl.iter().all(|&i| map[i].is_some()) && !bl.is_empty() {
+                let f = |l: &str| labels[map[labels.iter().position(|k| k == l).unwrap()].unwrap()].clone();
+                if !set.contains(&show_q(&rename_q(q, &f))) { return false; }
+            }
+        }
+        if k == order.len() { return true; }
+        let i = order[k];
+        if map[i].is_some() { return go(k + 1, order, map, used, d, qb, deg, labels, set); }
+        for t in 0..labels.len() {
+            if !used[t] && deg[t] == deg[i] {
+                map[i] = Some(t); used[t] = true;
+                if go(k + 1, order, map, used, d, qb, deg, labels, set) { return true; }
+                map[i] = None; used[t] = false;
+            }
+        }
+        false
+    }
+    let (xi, yi) = (idx(x), idx(y));
+    if deg[xi] != deg[yi] { return false; }
+    let mut map = vec![None; labels.len()];
+    let mut used = vec![false; labels.len()];
+    map[xi] = Some(yi); used[yi] = true;
+    // visit the labels along the quads, so that constraints bite early
+    let mut order: Vec<usize> = vec![xi];
+    loop {
+        let next = qb.iter().filter(|b| b.iter().any(|i| order.contains(i))).flat_map(|b| b.iter()).find(|i| !order.contains(i)).copied()
+            .or_else(|| (0..labels.len()).find(|i| !order.contains(i)));
+        match next { Some(i) => order.push(i), None => break }
+    }
+    go(0, &order, &mut map, &mut used, d, &qb, &deg, &labels, &set)
+}
+/// a tie of step 5.3 between two nodes that no automorphism exchanges
+pub fn nonauto_tie(s: &SpecOut, d: &[Q]) -> Option<(String, String)> {
+    s.ties.iter().find(|(x, y)| !automorphic(d, x, y)).cloned()
+}
+/// the same quads in other insertion orders: the quads at the positions `focus` permuted among themselves in
+/// every way when there are at most four of them, 24 shuffles otherwise
+pub fn focus_orders(d: &[Q], focus: &[usize], r: &mut Rng) -> Vec<Vec<Q>> {
+    let place = |perm: &[usize]| -> Vec<Q> {
+        let mut v = d.to_vec();
+        for (k, &src) in perm.iter().enumerate() { v[focus[k]] = d[focus[src]].clone(); }
+        v
+    };
+    if focus.len() <= 4 {
+        lex_perms(focus.len()).iter().map(|p| place(p)).collect()
+    } else {
+        (0..24).map(|_| { let mut p: Vec<usize> = (0..focus.len()).collect(); shuffle(&mut p, r); place(&p) }).collect()
+    }
 }
 
 // ---------------------------------------------------------------- the two drivers
@@ -807,6 +1184,7 @@ const PL_GRID: [usize; 7] = [0, 1, 2, 3, 4, 6, 12];
 
 fn check_one(tag: &str, d: &[Q], order: &[Q], out: &Outcome, spec: &Result<SpecOut, String>, df1000: u64, pl: usize, fails: &mut Vec<String>) {
     let nb = d_blanks(d).len();
+    for x in &out.extra { fails.push(format!("{tag}: {x}")); }
     // generalized RDF (a literal as predicate) is outside RDFC-1.0 and outside the property: sophia then
     // either writes a generalized document or panics in hash_related_bnode (`quad.p().iri().unwrap()`);
     // only the model of the implementation is compared on such input
@@ -859,6 +1237,29 @@ fn check_one(tag: &str, d: &[Q], order: &[Q], out: &Outcome, spec: &Result<SpecO
     }
 }
 
+/// one quad of `order` is yielded twice by an OrderedVec (line 75 of rdfc10.rs: the comparator meets two equal quads)
+fn dup_run(order: &[Q], r: &mut Rng, sha384: bool, fails: &mut Vec<String>) -> (Vec<Q>, Outcome) {
+    let mut v = order.to_vec();
+    let q = v[r.below(v.len())].clone();
+    let at = r.below(v.len() + 1);
+    v.insert(at, q);
+    let (o, out) = run_impl_p(&v, ORDERED, sha384, 1.0, 6, false);
+    let tag = "a dataset yielding one quad twice";
+    for x in &out.extra { fails.push(format!("{tag}: {x}")); }
+    match (out.code, spec_run(&o, sha384)) {
+        (0, Ok(s)) => {
+            if s.bytes != out.bytes || s.idmap.iter().map(|(k, v)| (k.clone(), v.clone())).collect::<Vec<_>>() != out.idmap {
+                fails.push(format!("{tag} ({}): got {:?} {:?}, the transcription of the W3C text run on the same list gives {:?} {:?}", show_d(&o), out.bytes, out.idmap, s.bytes, s.idmap));
+            }
+            let m: BTreeMap<String, String> = out.idmap.iter().cloned().collect();
+            let mapped: Vec<String> = o.iter().map(|q| show_q(&rename_q(q, &|l| m.get(l).cloned().unwrap_or_else(|| format!("MISSING-{l}"))))).collect();
+            if mapped != out.quads.iter().map(show_q).collect::<Vec<_>>() { fails.push(format!("{tag}: applying the identifier map to the input gives {mapped:?} but the returned quads are {:?}", out.quads.iter().map(show_q).collect::<Vec<_>>())); }
+        }
+        (c, _) => fails.push(format!("{tag} ({}): canonicalisation ended with code {c} {}", show_d(&o), out.msg)),
+    }
+    (o, out)
+}
+
 fn c_idmap(m: &[(String, String)]) -> String {
     coq_list(m.iter().map(|(k, v)| format!("({}, {})", pstr(k), pstr(v))))
 }
@@ -870,9 +1271,9 @@ pub fn run(mode: &str) {
     let once = coq_bool(!prefix_model);
     let mut sum = Summary::default();
     sum.rule = if c06 {
-        "case = (dataset: every graph over 3 blank nodes and 2 predicates with 1..4 edges in the thorough tier, then the C05 shapes with emphasis on literals with escape-relevant characters, quads mentioning one node twice and quads with three blank nodes, and (rarely, being expensive) datasets with more than ten blank nodes in which one node is related twice to another, so that temporary identifiers _:b9 / _:b10 give permutation paths of different lengths; store type; SHA-256 or SHA-384; run once with the default limits and once with (depth_factor, permutation_limit) from the grid {0,.25,.5,1,1.5,2,3} x {0,1,2,3,4,6,12}); three-way comparison implementation / model of the implementation / model of the specification; non-trivial = hash-n-degree ran (two blank nodes share a first-degree hash), or a literal needs escaping, or the input is unsupported, or a limit fired; distinct = distinct (dataset, limits, hash)".into()
+        "case = (dataset: every graph over 3 blank nodes and 2 predicates with 1..4 edges in the thorough tier, then the C05 shapes (including near-identical quads and parallel edges) with emphasis on literals with escape-relevant characters, quads mentioning one node twice and quads with three blank nodes, and (rarely, being expensive) datasets with more than ten blank nodes in which one node is related twice to another, so that temporary identifiers _:b9 / _:b10 give permutation paths of different lengths; store type among the nine of C05; SHA-256 or SHA-384; for one case in eight also an OrderedVec yielding one quad twice (implementation against its model and the Rust transcription only); run once with the default limits and once with (depth_factor, permutation_limit) from the grid {0,.25,.5,1,1.5,2,3} x {0,1,2,3,4,6,12}); three-way comparison implementation / model of the implementation / model of the specification; non-trivial = hash-n-degree ran (two blank nodes share a first-degree hash), or a literal needs escaping, or the input is unsupported, or a limit fired; distinct = distinct (dataset, limits, hash)".into()
     } else {
-        "case = (dataset of one shape among cycle / clique / disjoint isomorphic components / star / bipartite / blank graph names / node twice in a quad / three blank nodes in a quad / section-4-row-28 witness / literals / random / unsupported / tree, at most 6 blank nodes; a copy under a random label bijection and quad order; two store types among HashSet, BTreeSet, FastDataset, LightDataset; SHA-256 or SHA-384); non-trivial = hash-n-degree ran (two blank nodes share a first-degree hash); distinct = distinct (dataset, copy, hash)".into()
+        "case = (dataset of one shape among cycle / clique / disjoint isomorphic components / star / bipartite / blank graph names / node twice in a quad / three blank nodes in a quad / section-4-row-28 witness / literals / random / unsupported / tree, at most 6 blank nodes, and, every third case, near-identical quads (same lexical form under other datatypes / language tags, IRIs and lexical forms that are prefixes of each other, graph name present / absent / blank, at one or two positions of otherwise equal quads) or parallel edges (a root related to each child through 1..3 quads differing only by graph name or object, children told apart 0..2 steps further, repeated so that the root goes through hash-n-degree: the permuted related-node list is a multiset in the order the dataset yields the quads); a copy under a random label bijection and quad order; two store types among HashSet, BTreeSet, FastDataset, LightDataset, OrderedVec (yields in insertion order), BTreeSet / HashSet of Gspo, Fast/LightDataset after inserting and removing other quads; SHA-256 or SHA-384; plus the same quads in up to 24 other insertion orders (a focus group of quads permuted in every way) through normalize / normalize_sha384, the entry points with default limits against normalize_with / relabel_with, a writer taking 1..3 bytes per call, a writer failing after a byte budget, every accessor of the returned terms, and for some cases other limits from the C06 grid, a dataset whose iterator fails, a dataset yielding one quad twice); non-trivial = hash-n-degree ran (two blank nodes share a first-degree hash); distinct = distinct (dataset, copy, hash)".into()
     };
     let base = Rng::new(a.seed);
     // tier-dependent generation is selected by an explicit flag so that `--only` replays reproduce it
@@ -885,20 +1286,26 @@ pub fn run(mode: &str) {
         let mut r = base.fork(idx as u64);
         let exhaustive = c06 && thorough && idx < EXHAUSTIVE;
         let forced = a.rest.iter().position(|x| x == "--shape").and_then(|i| a.rest.get(i + 1)).and_then(|n| SHAPES.iter().position(|s| s == n));
-        let mut shape = if let Some(f) = forced { f } else if c06 { *r.pick(&[9usize, 9, 9, 6, 6, 7, 10, 10, 11, 0, 1, 2, 3, 4, 5, 8, 12]) } else { r.below(SHAPES.len() - 2) };
+        let mut shape = if let Some(f) = forced { f } else if c06 { *r.pick(&[9usize, 9, 9, 6, 6, 7, 10, 10, 11, 0, 1, 2, 3, 4, 5, 8, 12, 15, 15, 16]) } else { r.below(13) };
         if forced.is_none() && c06 {
             // more than ten temporary identifiers: expensive for the Coq side, hence rare
             if r.chance(1, 100) { shape = 14; } else if thorough && r.chance(1, 150) { shape = 13; }
         }
+        // C05: every third case is one of the shapes added later (near-identical quads, parallel edges)
+        if forced.is_none() && !c06 && idx % 3 == 2 { shape = NEW_SHAPES[(idx / 3) % NEW_SHAPES.len()]; }
+        let new_shape = NEW_SHAPES.contains(&shape);
         let big = thorough && r.chance(1, 40);
         let d: Vec<Q> = if exhaustive { exhaustive_case(idx).unwrap() } else { gen_dataset(&mut r, shape, big) };
         let shape_name = if exhaustive { "exhaustive" } else { SHAPES[shape] };
         let sha384 = r.chance(1, 3) && shape_name != "b9-b10-witness";
-        let (s1, s2) = (r.below(4), r.below(4));
+        let (mut s1, s2) = (r.below(STORES.len()), r.below(STORES.len()));
+        if new_shape && r.chance(2, 3) { s1 = ORDERED; }
         let _ = take_table();
         let mut fails: Vec<String> = vec![];
         let spec1 = spec_run(&d, sha384);
         let nontrivial_nd = spec1.as_ref().map(|s| s.max_list > 0).unwrap_or(false);
+        // a deterministic measure of the work of one canonicalisation: permutations visited by the transcription
+        let work = spec1.as_ref().map(|s| s.perms).unwrap_or(0).max(1);
         let mut body: Vec<String> = vec![];
         let mut text = format!("{} [{}] {}", shape_name, if sha384 { "sha384" } else { "sha256" }, show_d(&d));
         if c06 {
@@ -907,7 +1314,7 @@ pub fn run(mode: &str) {
             shuffle(&mut shuffled, &mut r);
             for (k, (df1000, pl)) in [(1000u64, 6usize), (dfg, plg)].into_iter().enumerate() {
                 let store = if k == 0 { s1 } else { s2 };
-                let (order, out) = run_impl(&shuffled, store, sha384, df1000 as f32 / 1000.0, pl);
+                let (order, out) = run_impl_p(&shuffled, store, sha384, df1000 as f32 / 1000.0, pl, work <= 200);
                 // the specification runs on the quads as the store enumerates them (a term index keeps the
                 // first spelling of language tags that differ only in case)
                 let spec_o = spec_run(&order, sha384);
@@ -917,6 +1324,11 @@ pub fn run(mode: &str) {
                 body.push(format!("three_ok {once} tbl {df1000} {pl} {} {} {} {}", c_quads(&order), out.code, pstr(&out.bytes), c_idmap(&out.idmap)));
             }
             text.push_str(&format!(" limits=({dfg},{plg})"));
+            if r.chance(1, 8) && spec1.is_ok() && !d.is_empty() && work <= 1000 {
+                let (order, out) = dup_run(&shuffled, &mut r, sha384, &mut fails);
+                sum.bump("run:dataset-yielding-a-quad-twice");
+                body.push(format!("impl_ok {once} tbl 1000 6 {} {} {} {}", c_quads(&order), out.code, pstr(&out.bytes), c_idmap(&out.idmap)));
+            }
         } else {
             // the copy: label bijection + quad order
             let labels: Vec<String> = d_blanks(&d).into_iter().collect();
@@ -927,8 +1339,9 @@ pub fn run(mode: &str) {
             };
             shuffle(&mut fresh, &mut r);
             let d2: Vec<Q> = { let mut v: Vec<Q> = d.iter().map(|q| rename_q(q, &|l| fresh[labels.iter().position(|k| k == l).unwrap()].clone())).collect(); shuffle(&mut v, &mut r); v };
-            let (o1, out1) = run_impl(&d, s1, sha384, 1.0, 6);
-            let (o2, out2) = run_impl(&d2, s2, sha384, 1.0, 6);
+            sum.bump(&format!("work:{}", match work { 0..=10 => "<=10", 11..=50 => "<=50", 51..=200 => "<=200", 201..=1000 => "<=1000", _ => ">1000" }));
+            let (o1, out1) = run_impl_p(&d, s1, sha384, 1.0, 6, work <= 1000);
+            let (o2, out2) = run_impl_p(&d2, s2, sha384, 1.0, 6, work <= 200);
             // the specification runs on the quads as the stores enumerate them (a term index keeps the
             // first spelling of language tags that differ only in case)
             let spec1 = spec_run(&o1, sha384);
@@ -954,11 +1367,97 @@ pub fn run(mode: &str) {
                 }
             }
             if a.only.is_some() {
+                println!("WORK {work} permutations per canonicalisation");
                 println!("ORIGINAL store={} order={} => code {} {} bytes={:?} idmap={:?}", STORES[s1], show_d(&o1), out1.code, out1.msg, out1.bytes, out1.idmap);
                 println!("COPY store={} order={} => code {} {} bytes={:?} idmap={:?}", STORES[s2], show_d(&o2), out2.code, out2.msg, out2.bytes, out2.idmap);
             }
-            body.push(format!("impl_ok {once} tbl 1000 6 {} {} {} {}", c_quads(&o1), out1.code, pstr(&out1.bytes), c_idmap(&out1.idmap)));
-            body.push(format!("impl_ok {once} tbl 1000 6 {} {} {} {}", c_quads(&o2), out2.code, pstr(&out2.bytes), c_idmap(&out2.idmap)));
+            for (o, out) in [(&o1, &out1), (&o2, &out2)] {
+                // one evaluation of the model against everything observed on this dataset: normalize_with / relabel_with,
+                // the entry points with the default limits, the writer with a byte budget (model: code points =
+                // bytes, hence for ASCII documents only)
+                let dflt = out.dflt.as_ref().map(|df| format!("({}, {}, {})", df.code, pstr(&df.bytes), c_idmap(&df.idmap)));
+                let bud = out.budget.as_ref().filter(|_| out.bytes.is_ascii()).map(|(budget, wcode, written)| {
+                    sum.bump(if *wcode == 7 { "writer:fails-within-the-document" } else { "writer:budget-suffices" });
+                    format!("({budget}, {wcode}, {})", pstr(std::str::from_utf8(written).unwrap()))
+                });
+                if dflt.is_some() { sum.bump("run:default-entry-points"); }
+                body.push(format!("run_ok {once} tbl 1000 6 {} {} {} {} {} {}", c_quads(o), out.code, pstr(&out.bytes), c_idmap(&out.idmap), coq_opt(dflt), coq_opt(bud)));
+            }
+            // (a') the same quads in other insertion orders, in a store that enumerates them in that order
+            let focus: Vec<usize> = match shape_name {
+                "multi-edge" => (0..d.len()).filter(|&i| q_blanks(&d[i]).iter().any(|l| l == "c0n")).collect(),
+                "twins" => (0..d.len().min(4)).collect(),
+                _ => { let mut all: Vec<usize> = (0..d.len()).collect(); shuffle(&mut all, &mut r); all.truncate(4); all }
+            };
+            let mut third: Option<Vec<Q>> = None;
+            // (datasets with more than 1000 permutations per run keep to the checks above)
+            let light = work <= 1000;
+            if out1.code == 0 && focus.len() >= 2 && light {
+                let mut orders = focus_orders(&d, &focus, &mut r);
+                // expensive datasets get fewer orders (about 8000 digests per case; all the orders for the new shapes)
+                if !new_shape || work > 100 { shuffle(&mut orders, &mut r); orders.truncate(((2400 / work) as usize).clamp(2, 40)); }
+                sum.bump_by("insertion-orders-tried", orders.len() as u64);
+                let pick = r.below(orders.len());
+                for (k, ord) in orders.iter().enumerate() {
+                    let got = quick_bytes(ord, sha384);
+                    if got.as_ref() != Ok(&out1.bytes) {
+                        let sp = spec_run(ord, sha384);
+                        let t2 = sp.as_ref().ok().and_then(|s| nonauto_tie(s, ord)).or(tie.clone());
+                        let spec_agrees = matches!((&sp, &got, &spec1), (Ok(x), Ok(g), Ok(y)) if &x.bytes == g && y.bytes == out1.bytes);
+                        if let (Some((x, y)), true) = (&t2, spec_agrees) {
+                            fails.push(format!("RDFC-1.0 tie between non-automorphic nodes (_:{x} and _:{y} get equal hash-n-degree results; the independent transcription of the W3C text behaves identically{}): the same quads inserted in the orders {} and {} get different canonical documents {:?} and {:?}", if has_three(&d) { "; the dataset has a quad with three blank nodes" } else { "" }, show_d(&o1), show_d(ord), out1.bytes, got));
+                        } else {
+                            fails.push(format!("canonical bytes depend on the insertion order: {} (as enumerated by {}) gives {:?} but the same quads inserted in the order {} give {:?}", show_d(&o1), STORES[s1], out1.bytes, show_d(ord), got));
+                        }
+                        if third.is_none() { third = Some(ord.clone()); }
+                        break;
+                    }
+                    if k == pick && new_shape { third = Some(ord.clone()); }
+                }
+            }
+            if let Some(ord) = third {
+                // one of them is also run with the recording hash function and handed to the model
+                let (o3, out3) = run_impl_p(&ord, ORDERED, sha384, 1.0, 6, false);
+                let spec3 = spec_run(&o3, sha384);
+                check_one("another insertion order in OrderedVec", &o3, &o3, &out3, &spec3, 1000, 6, &mut fails);
+                body.push(format!("impl_ok {once} tbl 1000 6 {} {} {} {}", c_quads(&o3), out3.code, pstr(&out3.bytes), c_idmap(&out3.idmap)));
+                if a.only.is_some() { println!("THIRD order={} => code {} {} bytes={:?} idmap={:?}", show_d(&o3), out3.code, out3.msg, out3.bytes, out3.idmap); }
+            }
+            // (f) other limits: an error only when the limit is exceeded; a result, when there is one, is the same
+            if r.chance(1, 5) && light {
+                let (dfg, plg) = (*r.pick(&DF_GRID), *r.pick(&PL_GRID));
+                sum.bump("run:other-limits");
+                for (dd, st, dflt_out) in [(&d, s1, &out1), (&d2, s2, &out2)] {
+                    let (o, out) = run_impl_p(dd, st, sha384, dfg as f32 / 1000.0, plg, false);
+                    let sp = spec_run(&o, sha384);
+                    check_one(&format!("limits ({},{}) in {}", dfg as f32 / 1000.0, plg, STORES[st]), &o, &o, &out, &sp, dfg, plg, &mut fails);
+                    if out.code == 0 && dflt_out.code == 0 && out.bytes != dflt_out.bytes { fails.push(format!("the canonical document depends on the limits: {:?} with (1.0, 6) but {:?} with ({}, {}) for {}", dflt_out.bytes, out.bytes, dfg as f32 / 1000.0, plg, show_d(dd))); }
+                    if out.code != 0 && dflt_out.code == 0 { sum.bump("outcome:limit-fired-under-other-limits"); }
+                    body.push(format!("impl_ok {once} tbl {dfg} {plg} {} {} {} {}", c_quads(&o), out.code, pstr(&out.bytes), c_idmap(&out.idmap)));
+                    if a.only.is_some() { println!("LIMITS ({dfg}/1000,{plg}) store={} => code {} {}", STORES[st], out.code, out.msg); }
+                }
+            }
+            // (g) a dataset that fails while it is enumerated: an explicit error, nothing written
+            if r.chance(1, 8) && !o1.is_empty() && light {
+                let k = r.below(o1.len() + 1);
+                let out = run_failing(&o1, k, sha384);
+                sum.bump(if k < o1.len() { "run:dataset-fails" } else { "run:fallible-dataset-succeeds" });
+                for x in &out.extra { fails.push(format!("fallible dataset: {x}")); }
+                if k < o1.len() {
+                    if out.code != 6 { fails.push(format!("the dataset failed at item {k} of {} but canonicalisation ended with code {} {} {:?}", show_d(&o1), out.code, out.msg, out.bytes)); }
+                } else if out.code != out1.code || out.bytes != out1.bytes || out.idmap != out1.idmap {
+                    fails.push(format!("the same quads in the same order through a fallible dataset type give code {} {:?} {:?} instead of code {} {:?} {:?}", out.code, out.bytes, out.idmap, out1.code, out1.bytes, out1.idmap));
+                }
+                let items = coq_list(o1.iter().enumerate().map(|(i, q)| if i == k { "None".to_string() } else { format!("Some {}", c_quad(q)) }));
+                body.push(format!("src_ok {once} tbl 1000 6 {items} {} {} {}", out.code, pstr(&out.bytes), c_idmap(&out.idmap)));
+            }
+            // (h) a dataset that yields one quad twice (outside the SetDataset contract): implementation against its
+            // model and against the transcription of the W3C text run on the same list
+            if r.chance(1, 10) && out1.code == 0 && spec1.is_ok() && !o1.is_empty() && light {
+                let (order, out) = dup_run(&o1, &mut r, sha384, &mut fails);
+                sum.bump("run:dataset-yielding-a-quad-twice");
+                body.push(format!("impl_ok {once} tbl 1000 6 {} {} {} {}", c_quads(&order), out.code, pstr(&out.bytes), c_idmap(&out.idmap)));
+            }
             text.push_str(&format!(" copy={}", show_d(&d2)));
         }
         let table = take_table();
@@ -985,7 +1484,7 @@ pub fn run(mode: &str) {
         cases.push((idx, format!("let tbl := {} in {}", coq_table(&table), body.join(" && "))));
     }
     if a.only.is_none() {
-        let header = if c06 { "From Coq Require Import Uint63.\nFrom Sophia.C05 Require Import Model.\nFrom Sophia.C06 Require Import Model." } else { "From Coq Require Import Uint63.\nFrom Sophia.C05 Require Import Model." };
+        let header = if c06 { "From Coq Require Import Uint63.\nFrom Sophia.C05 Require Import Model.\nFrom Sophia.C06 Require Import Model." } else { "From Coq Require Import Uint63.\nFrom Sophia.C05 Require Import Model Entry." };
         sum.shards = write_shards(&a.out, header, &cases, a.shards);
         sum.extra.push(("max_hash_table_entries".into(), max_table.to_string()));
         std::fs::write(format!("{}/summary.json", a.out), sum.to_json()).unwrap();
